@@ -442,5 +442,7 @@ func init() {
 		// the source's line pattern: Go's regexp engine vs the Lean semantics of the translated
 		// pattern vs the model's deterministic line parser
 		c02regexStream(c)
+		// state left by an earlier decode that failed
+		c02history(c)
 	}
 }
